@@ -123,6 +123,11 @@ nni_chunk_grow(nni_chunk *ch, size_t newsz, size_t headwanted)
 		if (headwanted < headroom) {
 			headwanted = headroom; // Never shrink this.
 		}
+		// Check again, now that the headroom may have been raised:
+		// the sum below must not wrap.
+		if (headwanted > (SIZE_MAX - newsz)) {
+			return (NNG_ENOMEM);
+		}
 		if (((newsz + headwanted) <= ch->ch_cap) &&
 		    (headwanted <= headroom)) {
 			// We have enough space at the ends already.
@@ -436,9 +441,11 @@ nni_msg_alloc(nni_msg **mp, size_t sz)
 		NNI_FREE_STRUCT(m);
 		return (rv);
 	}
-	if (nni_chunk_append(&m->m_body, NULL, sz) != 0) {
-		// Should not happen since we just grew it to fit.
-		nni_panic("chunk_append failed");
+	if ((rv = nni_chunk_append(&m->m_body, NULL, sz)) != 0) {
+		// Only for sizes so large that adding the headroom wrapped.
+		nni_chunk_free(&m->m_body);
+		NNI_FREE_STRUCT(m);
+		return (rv);
 	}
 
 	// We always start with a single valid reference count.
